@@ -1,4 +1,4 @@
-// GENERATED on every run by vlib/extract.py from /tmp/seedcheck-15216 -- do not edit
+// GENERATED on every run by vlib/extract.py from /tmp/refcheck-18294 -- do not edit
 #![allow(unused_imports, unused_variables, unused_mut, dead_code, unused_parens, unused_braces, non_snake_case)]
 use vstd::prelude::*;
 use core::cmp::Ordering;
@@ -826,6 +826,21 @@ impl From<ParseError> for PackageError {
     fn from(e: ParseError) -> (r: Self)
     { PackageError::Parse(e) }
 }
+
+// ---- the static name table (C15) ----
+/// a table entry: a key text mapped to a variant; the entries are exactly the (name, variant) pairs
+pub open spec fn table_entry(k: Seq<char>, t: PackageType) -> bool { k == type_name(t) }
+pub open spec fn table_has(t: PackageType) -> bool { table_entry(type_name(t), t) }
+
+/// `PACKAGE_TYPES.get(&UniCase::new(s)).copied()`: ASSUMED contract of phf + unicase for a table whose keys are the variant
+/// names (proved entry by entry in package_types_table): a hit means the probe equals that key ignoring ASCII case, and every
+/// probe that equals a key ignoring ASCII case hits. (B: all 192 case variants, look-alikes and one-edit neighbours.)
+#[verifier::external_body]
+pub fn x_table_lookup(s: &str) -> (r: Option<PackageType>)
+    ensures
+        r is Some ==> lower_ascii_seq(s@) == type_name(r->Some_0),
+        (exists|t: PackageType| lower_ascii_seq(s@) == type_name(t)) ==> r is Some,
+{ unimplemented!() }
 
 // ---- unit T.GenericPurlBuilder  <= purl/src/builder.rs:25 ----
 pub struct GenericPurlBuilder<T> {
